@@ -97,7 +97,14 @@ def check_machine(ctx, prog, f):
         if 'REF_START' in S and after.vars['state'] == S['REF_START'] and before.vars['state'] != S['REF_START']:
             if after.vars['lastState'] != before.vars['state']:
                 ref_bad.append((before.vars['state'], after.vars['lastState'], m.witness(before.key()) + bytes([c & 255])))
-    desc['after_step'] = after_step
+    name_envs = {}
+
+    def after_step2(m, before, after, ctl, c):
+        after_step(m, before, after, ctl, c)
+        for nm in ('TAG', 'ATT_NAME', 'TAG_START', 'WAIT_ATT'):
+            if nm in S and before.vars['state'] == S[nm] and len(name_envs.setdefault(nm, {})) < 8:
+                name_envs[nm].setdefault(before.key(), before.copy())
+    desc['after_step'] = after_step2
     m = XmlMachine(prog, desc)
     try:
         m.explore()
@@ -126,6 +133,29 @@ def check_machine(ctx, prog, f):
                       'an entity/character reference met in state %s will return to state %s (the saved state is stale): the text after the reference is parsed as if inside an attribute value or vice versa; abstract witness input %r' % (Sn.get(b0[0]), Sn.get(b0[1]), b0[2]))
     else:
         ctx.ok('C07.stack', f['pq'], 'decode:a reference returns to the state it interrupted', fwhere(f), 'on every transition into the reference state the saved state equals the interrupted state')
+    # names: every character of a well-formed XML name (letters, digits, '_' ':' '-' '.', non-ASCII bytes; the first one not a
+    # digit, '-' or '.') keeps the decoder out of its error state inside a tag name and an attribute name - the encoder
+    # writes such names verbatim, so rejecting one of them loses the whole tree
+    start_chars = [ord(c) for c in 'azAZ_:'] + [0xc3, 0xe9]
+    more_chars = start_chars + [ord(c) for c in '09-.']
+    rejected = []
+    for nm, chars in (('TAG', more_chars), ('ATT_NAME', more_chars), ('TAG_START', start_chars), ('WAIT_ATT', start_chars)):
+        for key, env in name_envs.get(nm, {}).items():
+            for b in chars:
+                c = b - 256 if b > 127 else b
+                try:
+                    outs = m.step(env.copy(), c)
+                except automaton.Stuck:
+                    continue
+                ctx.evaluations += 1
+                if outs and all(e2.vars['state'] == S['ERR'] for e2, ctl in outs):
+                    rejected.append((nm, b))
+    rejected = sorted(set(rejected))
+    if name_envs:
+        ctx.check(not rejected, 'C07.names', f['pq'], 'decode:every XML name character is accepted in tag and attribute names', fwhere(f),
+                  'letters, digits, _ : - . and non-ASCII bytes stay out of the error state in %s' % sorted(name_envs),
+                  'Xml::decode enters its error state on %s: a tree whose tag or attribute names contain that character is encoded normally but decodes to a null element' % (
+                      ', '.join('%r in state %s' % (chr(b) if b < 128 else hex(b), nm) for nm, b in rejected[:4])))
     if not groups:
         ctx.ok('C07.stack', f['pq'], 'decode:stack safety over all reachable configurations', fwhere(f), '%d configurations, %d transitions: no unsafe popget/top, look-behind within consumed input' % (len(m.configs), m.transitions))
 
